@@ -8,9 +8,9 @@ STATEFUL_ASSUMPTIONS = [
 ]
 GEN = ("rapid state machine: a generated valid genesis (fees, allowlist, allowed denoms, fee rates, bridge chains, sequences near the padded width) then a history of "
        "state-aware steps drawn from a weighted profile over all message types, blocks (1 ns .. years, landing on expirations), restarts, faucet steps, "
-       "speculative steps (1-3 generated messages executed on a branch that is discarded, as a simulation or rolled-back tx does) and once-per-history macro steps "
+       "speculative steps (1-5 generated messages executed on a branch that is discarded, as a simulation or rolled-back tx does; a third of them coherent set-up or configuration-change chains whose entities later messages name as phantom ids) and once-per-history macro steps "
        "(>100 batches in a basket, >100 / >240 orders of one seller, >100 attestations by one attestor, >10 holders of a batch); values include near-miss identifiers, "
-       "re-spelled amounts, amounts beyond 34 digits; some configurations have a populated genesis (>100 classes/projects/issuers) or a vesting account; ")
+       "re-spelled amounts, amounts beyond 34 digits; some configurations have a populated genesis (>100 classes/projects/issuers), a legacy genesis (batches with omitted zero amounts, baskets with zero entries or an exponent-9 basket, hand-spelled fee amounts) or a vesting account; ")
 DIST = " Distinct = distinct (step kind, accepted?) sequences."
 
 def stateful(test, rule, quick=4000, thorough=80000, qsteps=40, tsteps=70, extra=None, qtimeout=900):
